@@ -1141,6 +1141,11 @@ def make_builtins(ip):
 
     def blen(ip, args, kwargs):
         (v,) = args
+        if isinstance(v, list) and any(isinstance(x, I.Guarded) for x in v):
+            n = 0
+            for x in v:
+                n = sym.add(n, sym.If(x.guard, 1, 0) if isinstance(x, I.Guarded) else 1)
+            return n
         if isinstance(v, (list, tuple, str, dict, set, frozenset, range)):
             return len(v)
         if isinstance(v, I.TokStr):
